@@ -14,9 +14,9 @@
     the fragment ([Stuck]: Python numbers raise ZeroDivisionError, numpy
     numbers give inf/nan/0 with a warning).  [round] is half-to-even ([rhe]).
 
-    Sequences: [VL] is a Python list or tuple (the two are not distinguished;
-    the serialiser admits [.append] and item assignment only on variables
-    that hold a fresh list / array).  [VA] is a numpy array: 1-D when its
+    Sequences: [VL] is a Python list, [VT] a tuple (iterators such as
+    [reversed(..)] / [enumerate(..)] are rendered as lists: they are only
+    iterated or converted).  [VA] is a numpy array: 1-D when its
     elements are scalars, 2-D when they are [VA] rows.  Only arrays
     broadcast; int arrays and float arrays are told apart by their elements
     ([np.array] unifies them, assignment into a float array casts).
@@ -25,6 +25,11 @@
     rebinding [x].  That is faithful when no alias of the mutated object is
     live, which the serialiser checks syntactically ("freshness" in
     harness/translate_pylite.py).
+
+    Objects ([VO]) carry their class name and the attributes assigned so far;
+    [self.a = v] rebinds [self].  The effect on the caller's object is not
+    observed (functions are observed through their result or exception only),
+    and attributes set by a callee are not seen (reading them is [Stuck]).
 
     Anything outside the fragment evaluates to [Stuck], which makes the
     equivalence proofs fail (fail closed). *)
@@ -39,11 +44,17 @@ Inductive val :=
 | VZ (z : Z)
 | VQ (q : Q)
 | VS (s : string)
-| VL (l : list val)           (* list / tuple *)
-| VA (l : list val).          (* numpy array *)
+| VL (l : list val)           (* list *)
+| VT (l : list val)           (* tuple *)
+| VA (l : list val)           (* numpy array *)
+| VO (cls : string) (fields : list (string * val)).   (* an object: its class name and the attributes set so far *)
 
 Inductive binop := Add | Sub | Mul | Div | FloorDiv | Mod.
 Inductive cmpop := CLt | CLe | CGt | CGe | CEq | CNe.
+
+(** comprehensions: [e for x in it] (a list), all(e for x in it), any(e for x in it);
+    all / any stop at the first deciding element, as the generator forms do *)
+Inductive comp_kind := CList | CAll | CAny | CConcat.   (* CConcat: the elements are lists, concatenated (several for clauses) *)
 
 Inductive expr :=
 | EVar (x : string)
@@ -57,7 +68,9 @@ Inductive expr :=
 | EIsNone (a : expr) (negated : bool)        (* x is None / x is not None *)
 | EIn (a : expr) (l : list expr) (negated : bool)
 | ECall (f : string) (args : list expr)      (* f(args); methods and attributes are calls of "meth:m" / "attr:a" on the object *)
-| ETuple (l : list expr)
+| ETuple (l : list expr)                     (* (a, b, ...) *)
+| EList (l : list expr)                      (* [a, b, ...] *)
+| EComp (k : comp_kind) (x : string) (it : expr) (body : expr)
 | EIndex (a : expr) (i : Z)                  (* a[i], i >= 0 a literal *)
 | EIdx (a : expr) (i : expr)                 (* a[i], i computed (negative: from the end) *)
 | ESliceTo (a : expr) (k : Z)                (* a[:k]  (k = -1: all but the last; k >= 0: first k) *)
@@ -71,6 +84,8 @@ Inductive stmt :=
 | SAppend (x : string) (e : expr)                (* x.append(e), x a list *)
 | SSetItem (x : string) (i : expr) (e : expr)    (* x[i] = e *)
 | SSetSlice (x : string) (k : Z) (e : expr)      (* x[:k] = e, k >= 0 *)
+| SAugItem (x : string) (i : expr) (op : binop) (e : expr)   (* x[i] op= e *)
+| SSetAttr (x : string) (a : string) (e : expr)  (* x.a = e, x an object (only [self] is admitted by the serialiser) *)
 | SExpr (e : expr)                               (* an expression evaluated for its exceptions *)
 | SRaise
 | SReturn (e : expr)
@@ -127,17 +142,38 @@ Fixpoint map_opt (l : list A) : option (list B) :=
   end.
 End MapOpt.
 
-(** array (+|-|*|/|//|%) scalar and scalar op array broadcast (1-D);
-    everything else on sequences is outside the fragment *)
+(** array (+|-|*|/|//|%) scalar and scalar op array broadcast (any number of
+    dimensions); everything else on sequences is outside the fragment *)
+Fixpoint bc_l (op : binop) (b : val) (a : val) : option val :=
+  match a with
+  | VA l => option_map VA (map_opt (bc_l op b) l)
+  | _ => arith op a b
+  end.
+Fixpoint bc_r (op : binop) (a : val) (b : val) : option val :=
+  match b with
+  | VA r => option_map VA (map_opt (bc_r op a) r)
+  | _ => arith op a b
+  end.
+Definition arith2 (op : binop) (p : val * val) : option val :=
+  match fst p, snd p with
+  | VA _, _ | _, VA _ => None
+  | x, y => arith op x y
+  end.
+
 Definition binop_val (op : binop) (a b : val) : option val :=
   match a, b with
-  | VA l, VA r => None
-  | VA l, _ => option_map VA (map_opt (fun x => arith op x b) l)
-  | _, VA r => option_map VA (map_opt (fun y => arith op a y) r)
+  | VL l, VZ n => match op with Mul => Some (VL (List.concat (repeat l (Z.to_nat n)))) | _ => None end   (* [x] * n *)
+  | VT l, VZ n => match op with Mul => Some (VT (List.concat (repeat l (Z.to_nat n)))) | _ => None end
+  | VA l, VA r =>                    (* two 1-D arrays of the same length, element-wise *)
+      if Nat.eqb (List.length l) (List.length r)
+      then option_map VA (map_opt (arith2 op) (combine l r))
+      else None
+  | VA l, _ => bc_l op b a
+  | _, VA r => bc_r op a b
   | _, _ => arith op a b
   end.
 
-Definition cmp_val (op : cmpop) (a b : val) : option bool :=
+Definition cmp_scalar (op : cmpop) (a b : val) : option bool :=
   match a, b with
   | VS x, VS y => match op with CEq => Some (String.eqb x y) | CNe => Some (negb (String.eqb x y)) | _ => None end
   | VZ x, VZ y =>
@@ -152,6 +188,27 @@ Definition cmp_val (op : cmpop) (a b : val) : option bool :=
                 | CEq => Qeqb x y | CNe => negb (Qeqb x y) end)
       | _, _ => None
       end
+  end.
+
+(** == on tuples of scalars: same length and equal elements *)
+Fixpoint tuple_eqb (l r : list val) : option bool :=
+  match l, r with
+  | [], [] => Some true
+  | x :: l', y :: r' =>
+      match cmp_scalar CEq x y, tuple_eqb l' r' with
+      | Some b, Some c => Some (b && c)
+      | _, _ => None
+      end
+  | _, _ => if forallb (fun v => match v with VZ _ | VQ _ => true | _ => false end) (l ++ r) then Some false else None
+  end.
+
+Definition cmp_val (op : cmpop) (a b : val) : option bool :=
+  match a, b with
+  | VT l, VT r => match op with
+                  | CEq => tuple_eqb l r
+                  | CNe => option_map negb (tuple_eqb l r)
+                  | _ => None end
+  | _, _ => cmp_scalar op a b
   end.
 
 (** comparison with array-scalar broadcasting (a bool array) *)
@@ -172,13 +229,44 @@ Definition truthy (v : val) : option bool :=
   | VQ q => Some (negb (Qeqb q 0))
   | VS s => Some (negb (String.eqb s ""))
   | VL l => Some (match l with [] => false | _ :: _ => true end)
+  | VT l => Some (match l with [] => false | _ :: _ => true end)
   | VA _ => None
+  | VO _ _ => Some true
+  end.
+
+Fixpoint comp_loop (k : comp_kind) (f : val -> option (option val)) (vs : list val) : option (option val) :=
+  match vs with
+  | [] => Some (Some (match k with CList | CConcat => VL [] | CAll => VB true | CAny => VB false end))
+  | v :: t =>
+      match f v with
+      | Some (Some b) =>
+          match k with
+          | CList => match comp_loop k f t with
+                     | Some (Some (VL r)) => Some (Some (VL (b :: r)))
+                     | Some (Some _) => None
+                     | o => o end
+          | CConcat => match b, comp_loop k f t with
+                       | VL l, Some (Some (VL r)) => Some (Some (VL (l ++ r)))
+                       | VL _, Some None => Some None
+                       | _, _ => None end
+          | CAll => match truthy b with
+                    | Some true => comp_loop k f t
+                    | Some false => Some (Some (VB false))
+                    | None => None end
+          | CAny => match truthy b with
+                    | Some false => comp_loop k f t
+                    | Some true => Some (Some (VB true))
+                    | None => None end
+          end
+      | Some None => Some None
+      | None => None
+      end
   end.
 
 Definition unQ (l : list val) : option (list Q) := map_opt toQ l.
 
 Definition seq_of (v : val) : option (list val) :=
-  match v with VL l => Some l | VA l => Some l | _ => None end.
+  match v with VL l => Some l | VT l => Some l | VA l => Some l | _ => None end.
 
 Definition is_scalar (v : val) : bool :=
   match v with VB _ | VZ _ | VQ _ => true | _ => false end.
@@ -188,6 +276,7 @@ Fixpoint has_Q (v : val) : bool :=
   match v with
   | VQ _ => true
   | VL l => existsb has_Q l
+  | VT l => existsb has_Q l
   | VA l => existsb has_Q l
   | _ => false
   end.
@@ -199,6 +288,7 @@ Fixpoint to_array (cast : bool) (v : val) : option val :=
   | VQ q => Some (VQ q)
   | VB b => if cast then None else Some (VB b)
   | VL l => option_map VA (map_opt (to_array cast) l)
+  | VT l => option_map VA (map_opt (to_array cast) l)
   | VA l => option_map VA (map_opt (to_array cast) l)
   | _ => None
   end.
@@ -208,6 +298,7 @@ Fixpoint to_array (cast : bool) (v : val) : option val :=
 Fixpoint shape_of (v : val) : list nat :=
   match v with
   | VL l => List.length l :: match l with x :: _ => shape_of x | [] => [] end
+  | VT l => List.length l :: match l with x :: _ => shape_of x | [] => [] end
   | VA l => List.length l :: match l with x :: _ => shape_of x | [] => [] end
   | _ => []
   end.
@@ -224,6 +315,8 @@ Fixpoint rect (v : val) : bool :=
   match v with
   | VL l => forallb rect l &&
             match l with x :: t => forallb (fun y => shape_eqb (shape_of y) (shape_of x)) t | [] => true end
+  | VT l => forallb rect l &&
+            match l with x :: t => forallb (fun y => shape_eqb (shape_of y) (shape_of x)) t | [] => true end
   | VA l => forallb rect l &&
             match l with x :: t => forallb (fun y => shape_eqb (shape_of y) (shape_of x)) t | [] => true end
   | _ => true
@@ -231,7 +324,7 @@ Fixpoint rect (v : val) : bool :=
 
 Definition np_array (v : val) : option val :=
   match v with
-  | VL _ | VA _ => if rect v then to_array (has_Q v) v else None
+  | VL _ | VT _ | VA _ => if rect v then to_array (has_Q v) v else None
   | _ => None
   end.
 
@@ -280,8 +373,32 @@ Definition bc_list (n : nat) (v : val) : option (list val) :=
   | _ => None
   end.
 
+(** np.ones_like(a): the same shape and type, filled with ones *)
+Fixpoint ones_like (v : val) : option val :=
+  match v with
+  | VZ _ => Some (VZ 1)
+  | VQ _ => Some (VQ 1)
+  | VB _ => Some (VB true)
+  | VA l => option_map VA (map_opt ones_like l)
+  | _ => None
+  end.
+
+(** sorted(seq, key=sum): a stable sort of sequences of ints by their sum *)
+Definition sum_key (v : val) : option Z :=
+  match v with
+  | VT l | VL l => fold_right (fun x acc => match x, acc with VZ z, Some a => Some (z + a)%Z | _, _ => None end) (Some 0%Z) l
+  | _ => None
+  end.
+Fixpoint insert_key (kx : Z) (x : val) (l : list (Z * val)) : list (Z * val) :=
+  match l with
+  | [] => [(kx, x)]
+  | (ky, y) :: t => if (kx <=? ky)%Z then (kx, x) :: (ky, y) :: t else (ky, y) :: insert_key kx x t
+  end.
+Fixpoint sort_keyed (l : list (Z * val)) : list (Z * val) :=
+  match l with [] => [] | (k, x) :: t => insert_key k x (sort_keyed t) end.
+
 Fixpoint enumerate_from (i : Z) (l : list val) : list val :=
-  match l with [] => [] | x :: t => VL [VZ i; x] :: enumerate_from (i + 1) t end.
+  match l with [] => [] | x :: t => VT [VZ i; x] :: enumerate_from (i + 1) t end.
 
 Definition all_scalar (l : list val) : bool := forallb is_scalar l.
 
@@ -292,17 +409,22 @@ Definition unB (l : list val) : option (list bool) :=
 Definition call (f : string) (args : list val) : option (option val) :=   (* None: stuck; Some None: raises *)
   let is := String.eqb f in
   if is "len" then match args with [VL l] => Some (Some (VZ (Z.of_nat (List.length l))))
-                                 | [VA l] => Some (Some (VZ (Z.of_nat (List.length l)))) | _ => None end
+                                 | [VT l] => Some (Some (VZ (Z.of_nat (List.length l))))
+                                 | [VA l] => Some (Some (VZ (Z.of_nat (List.length l))))
+                                 | [VNone] | [VB _] | [VZ _] | [VQ _] => Some None          (* TypeError *)
+                                 | _ => None end
   else if is "round" then match args with [v] => match toQ v with Some q => Some (Some (VZ (rhe q))) | None => None end | _ => None end
   else if is "int" then match args with [VZ z] => Some (Some (VZ z)) | _ => None end
   else if is "abs" then match args with [VZ z] => Some (Some (VZ (Z.abs z))) | [VQ q] => Some (Some (VQ (Qabs q))) | _ => None end
-  else if is "reversed" then match args with [VL l] => Some (Some (VL (rev l))) | _ => None end
-  else if is "enumerate" then match args with [VL l] => Some (Some (VL (enumerate_from 0 l))) | _ => None end
-  else if is "tuple" then match args with [VL l] => Some (Some (VL l)) | _ => None end
-  else if is "list" then match args with [VL l] => Some (Some (VL l)) | _ => None end
+  else if is "reversed" then match args with [VL l] => Some (Some (VL (rev l))) | [VT l] => Some (Some (VL (rev l))) | _ => None end
+  else if is "enumerate" then match args with [VL l] => Some (Some (VL (enumerate_from 0 l)))
+                                            | [VT l] => Some (Some (VL (enumerate_from 0 l))) | _ => None end
+  else if is "tuple" then match args with [VL l] => Some (Some (VT l)) | [VT l] => Some (Some (VT l)) | _ => None end
+  else if is "list" then match args with [VL l] => Some (Some (VL l)) | [VT l] => Some (Some (VL l)) | _ => None end
   else if is "np.isscalar" then
     match args with
     | [VL _] => Some (Some (VB false))
+    | [VT _] => Some (Some (VB false))
     | [VA _] => Some (Some (VB false))
     | [VZ _] => Some (Some (VB true))
     | [VQ _] => Some (Some (VB true))
@@ -362,6 +484,30 @@ Definition call (f : string) (args : list val) : option (option val) :=   (* Non
         end
     | _ => None
     end
+  else if is "np.meshgrid" then       (* two 1-D arrays, default indexing="xy": rows follow the second one *)
+    match args with
+    | [VA x; VA y] =>
+        if all_scalar x && all_scalar y
+        then Some (Some (VT [VA (map (fun _ => VA x) y); VA (map (fun b => VA (map (fun _ => b) x)) y)]))
+        else None
+    | _ => None
+    end
+  else if is "np.ones_like" then
+    match args with [VA l] => match ones_like (VA l) with Some a => Some (Some a) | None => None end | _ => None end
+  else if is "sorted,key=sum" then
+    match args with
+    | [v] => match seq_of v with
+             | Some l => match map_opt (fun x => option_map (fun k => (k, x)) (sum_key x)) l with
+                         | Some kl => Some (Some (VL (map snd (sort_keyed kl))))
+                         | None => None end
+             | None => None end
+    | _ => None
+    end
+  else if is "range" then
+    match args with
+    | [VZ n] => Some (Some (VL (map (fun i => VZ (Z.of_nat i)) (seq 0 (Z.to_nat n)))))
+    | _ => None
+    end
   else if is "np.arange" then
     match args with
     | [VZ a; VZ b] => Some (Some (VA (map (fun i => VZ (a + Z.of_nat i)) (seq 0 (Z.to_nat (b - a))))))
@@ -369,14 +515,21 @@ Definition call (f : string) (args : list val) : option (option val) :=   (* Non
     end
   else if is "isinstance:str" then
     match args with [VS _] => Some (Some (VB true)) | [_] => Some (Some (VB false)) | _ => None end
-  else if is "isinstance:tuple" then     (* lists and tuples are not distinguished: stuck on a [VL] *)
-    match args with [VL _] => None | [_] => Some (Some (VB false)) | _ => None end
+  else if is "isinstance:tuple" then
+    match args with [VT _] => Some (Some (VB true)) | [_] => Some (Some (VB false)) | _ => None end
   else if is "isinstance:list" then
-    match args with [VL _] => None | [_] => Some (Some (VB false)) | _ => None end
+    match args with [VL _] => Some (Some (VB true)) | [_] => Some (Some (VB false)) | _ => None end
   else if is "meth:ravel" then
     match args with [VA l] => if all_scalar l then Some (Some (VA l)) else None | _ => None end
   else if is "attr:size" then
     match args with [VA l] => if all_scalar l then Some (Some (VZ (Z.of_nat (List.length l)))) else None | _ => None end
+  else if String.prefix "attr:" f then      (* obj.a: an attribute set in this function, or given with the object *)
+    match args with
+    | [VO _ fs] => match lookup fs (String.substring 5 (String.length f - 5) f) with
+                   | Some v => Some (Some v)
+                   | None => None end
+    | _ => None
+    end
   else None.
 
 Section Eval.
@@ -477,7 +630,30 @@ Fixpoint eval (env : list (string * val)) (e : expr) {struct e} : option (option
                            | Some None => Some None
                            | None => None end
                end) l with
+      | Some (Some vs) => ret (VT vs)
+      | Some None => Some None
+      | None => None
+      end
+  | EList l =>
+      match (fix go (l : list expr) : option (option (list val)) :=
+               match l with
+               | [] => Some (Some [])
+               | a :: t => match eval env a with
+                           | Some (Some v) => match go t with Some (Some r) => Some (Some (v :: r)) | o => o end
+                           | Some None => Some None
+                           | None => None end
+               end) l with
       | Some (Some vs) => ret (VL vs)
+      | Some None => Some None
+      | None => None
+      end
+  | EComp k x it body =>
+      match eval env it with
+      | Some (Some v) =>
+          match seq_of v with
+          | Some vs => comp_loop k (fun v => eval ((x, v) :: env) body) vs
+          | None => None
+          end
       | Some None => Some None
       | None => None
       end
@@ -509,6 +685,8 @@ Fixpoint eval (env : list (string * val)) (e : expr) {struct e} : option (option
       match eval env a with
       | Some (Some (VL l)) => if (k =? -1)%Z then ret (VL (removelast l))
                               else if (0 <=? k)%Z then ret (VL (firstn (Z.to_nat k) l)) else None
+      | Some (Some (VT l)) => if (k =? -1)%Z then ret (VT (removelast l))
+                              else if (0 <=? k)%Z then ret (VT (firstn (Z.to_nat k) l)) else None
       | Some (Some (VA l)) => if (k =? -1)%Z then ret (VA (removelast l))
                               else if (0 <=? k)%Z then ret (VA (firstn (Z.to_nat k) l)) else None
       | Some None => Some None
@@ -517,6 +695,7 @@ Fixpoint eval (env : list (string * val)) (e : expr) {struct e} : option (option
   | ESliceFrom a k =>
       match eval env a with
       | Some (Some (VL l)) => if (0 <=? k)%Z then ret (VL (skipn (Z.to_nat k) l)) else None
+      | Some (Some (VT l)) => if (0 <=? k)%Z then ret (VT (skipn (Z.to_nat k) l)) else None
       | Some (Some (VA l)) => if (0 <=? k)%Z then ret (VA (skipn (Z.to_nat k) l)) else None
       | Some None => Some None
       | _ => None
@@ -637,6 +816,32 @@ Fixpoint exec (s : stmt) (env : list (string * val)) {struct s} : outcome :=
       | Some _, Some (Some _), Some None => Raised
       | _, _, _ => Stuck
       end
+  | SAugItem x i op e =>
+      match lookup env x, eval env i, eval env e with
+      | Some a, Some (Some (VZ j)), Some (Some v) =>
+          match seq_of a with
+          | Some l =>
+              match norm_index (List.length l) j with
+              | Some k =>
+                  match nth_val l k with
+                  | Some old =>
+                      match binop_val op old v with
+                      | Some nv => match set_item a j nv with
+                                   | Some (Some a') => Normal ((x, a') :: env)
+                                   | Some None => Raised
+                                   | None => Stuck end
+                      | None => Stuck
+                      end
+                  | None => Raised
+                  end
+              | None => Raised                                  (* IndexError *)
+              end
+          | None => Stuck
+          end
+      | Some _, Some None, _ => Raised
+      | Some _, Some (Some _), Some None => Raised
+      | _, _, _ => Stuck
+      end
   | SSetSlice x k e =>
       match lookup env x, eval env e with
       | Some a, Some (Some v) =>
@@ -644,6 +849,12 @@ Fixpoint exec (s : stmt) (env : list (string * val)) {struct s} : outcome :=
           | Some (Some a') => Normal ((x, a') :: env)
           | Some None => Raised
           | None => Stuck end
+      | Some _, Some None => Raised
+      | _, _ => Stuck
+      end
+  | SSetAttr x a e =>
+      match lookup env x, eval env e with
+      | Some (VO c fs), Some (Some v) => Normal ((x, VO c ((a, v) :: fs)) :: env)
       | Some _, Some None => Raised
       | _, _ => Stuck
       end
@@ -671,6 +882,36 @@ Proof.
   cbn [exec_list]. destruct (exec a env); reflexivity.
 Qed.
 
+(** the loop of [SFor], as a function of its own *)
+Fixpoint for_loop (targets : list string) (body : list stmt) (vs : list val) (env : list (string * val)) : outcome :=
+  match vs with
+  | [] => Normal env
+  | v :: t => match bind_pattern targets v env with
+              | inl env' => match exec_list body env' with Normal env'' => for_loop targets body t env'' | o => o end
+              | inr true => Raised
+              | inr false => Stuck end
+  end.
+
+Lemma exec_SFor targets it body env :
+  exec (SFor targets it body) env =
+  match eval env it with
+  | Some (Some v) => match seq_of v with Some vs => for_loop targets body vs env | None => Stuck end
+  | Some None => Raised
+  | None => Stuck
+  end.
+Proof.
+  cbn [exec]. destruct (eval env it) as [[v|]|]; try reflexivity.
+  destruct (seq_of v) as [vs|]; try reflexivity.
+  generalize env. induction vs as [|x t IH]; intros env0; [reflexivity|].
+  cbn [for_loop]. destruct (bind_pattern targets x env0) as [env'|[|]]; try reflexivity.
+  change ((fix run_list (l : list stmt) (env : list (string * val)) {struct l} : outcome :=
+             match l with
+             | [] => Normal env
+             | s :: t => match exec s env with Normal env' => run_list t env' | o => o end
+             end) body env') with (exec_list body env').
+  destruct (exec_list body env'); try reflexivity. apply IH.
+Qed.
+
 Lemma exec_SIf c th el env :
   exec (SIf c th el) env =
   match eval env c with
@@ -696,6 +937,25 @@ Definition run (f : func) (args : list val) : outcome :=
       end
   end.
 
+(** calling with keyword arguments: the positional arguments bind the first
+    parameters, the keyword arguments (the last [length kws] values) bind the
+    parameters of those names; every parameter must be bound exactly once
+    (defaults are not modelled) *)
+Definition run_kw (f : func) (kws : list string) (args : list val) : outcome :=
+  let npos := (List.length args - List.length kws)%nat in
+  let names := (firstn npos (f_params f) ++ kws)%list in
+  if Nat.eqb (List.length names) (List.length (f_params f)) &&
+     forallb (fun p => existsb (String.eqb p) names) (f_params f)
+  then match bind_targets names args [] with
+       | None => Stuck
+       | Some env =>
+           match exec_list (f_body f) env with
+           | Normal _ => Returned VNone
+           | o => o
+           end
+       end
+  else Stuck.
+
 End Eval.
 
 Definition no_user : string -> option (list val -> option (option val)) := fun _ => None.
@@ -718,6 +978,13 @@ Fixpoint val_eqb (a b : val) : bool :=
   | VQ x, VQ y => Qeqb x y
   | VS x, VS y => String.eqb x y
   | VL l, VL r =>
+      (fix go (l r : list val) : bool :=
+         match l, r with
+         | [], [] => true
+         | x :: l', y :: r' => val_eqb x y && go l' r'
+         | _, _ => false
+         end) l r
+  | VT l, VT r =>
       (fix go (l r : list val) : bool :=
          match l, r with
          | [], [] => true
